@@ -168,13 +168,22 @@ where
 
     fn size(&self) -> usize {
         let mut iter = self.bytes_iter();
-        let last_payload = match (&mut iter).map(Result::unwrap).last() {
-            Some(payload) => payload,
-            None => return Self::OFFSET_SIZE,
-        };
-        match iter.data {
-            Some(_) => iter.pos + Self::OFFSET_SIZE,
-            None => iter.pos + ceil_mul(T::from_bytes(last_payload).unwrap().size(), Self::ALIGN),
+        // Offset slot position and payload of the most recent item.
+        let mut last_item = None;
+        loop {
+            let pos = iter.pos;
+            match iter.next() {
+                Some(payload) => last_item = Some((pos, payload.unwrap())),
+                None => break,
+            }
+        }
+        match last_item {
+            // The chain ends with an open item (`L::MAX`): the iterator has not moved past its slot.
+            Some((pos, payload)) if pos == iter.pos => {
+                pos + Self::OFFSET_SIZE + ceil_mul(T::from_bytes(payload).unwrap().size(), Self::ALIGN)
+            }
+            // The chain ends with a zero slot at `iter.pos` (or is empty).
+            _ => iter.pos + Self::OFFSET_SIZE,
         }
     }
 }
